@@ -8,13 +8,10 @@ TITLE = 'TLV models encode to exact, minimal TLV and decode back to equal values
 LEAN_TARGETS = ['NdnProofs.Props.C08', 'NdnGen.C08']
 THEOREMS = [
     'Ndn.C08.announced_length_exact', 'Ndn.C08.enc_wellformed', 'Ndn.C08.writeTlNum_shortest',
-    'Ndn.C08.uint_smallest_width', 'Ndn.C08.parse_enc_roundtrip_partial',
+    'Ndn.C08.uint_smallest_width', 'Ndn.C08.parse_enc_roundtrip',
     'Ndn.C08.unknown_noncritical_skipped', 'Ndn.C08.unknown_critical_rejected', 'Ndn.Gen.C08.shipped_wf',
 ]
-PARTIAL = {
-    'Ndn.C08.parse_enc_roundtrip_partial': 'proved for schemas without MapField (no shipped model uses MapField); '
-                                           'map round trip rests on the correspondence only',
-}
+PARTIAL = {}
 TRUSTED = [
     'C08: the metaclass merge (inheritance / IncludeBase) is resolved by the library before extraction: the model starts from _encoded_fields; random classes with inheritance are exercised by the correspondence only',
     'C08: text fields are UTF-8 bytes in the model; str<->UTF-8 is CPython',
@@ -27,12 +24,14 @@ RULE = ('(a) randomly generated TlvModel classes (random field kinds incl. neste
         'elements, truncation, length edit). non-trivial = the value has at least two present fields; distinct = distinct '
         '(schema, value, mutation)')
 LEVEL_TEXT = ('Lean 4 theorems about a generic interpreter of TLV model schemas (every nesting of integer, boolean, bytes/text, '
-              'name, sub-model, repeated fields): announced length = encoded size, output is a well-formed TLV sequence in '
-              'field order with shortest T/L and smallest integer width, decode(encode v) = v, unknown non-critical elements '
-              'skipped and unknown critical ones rejected - for ALL schemas and values by structural induction. The interpreter '
+              'name, sub-model, repeated and map fields): announced length = encoded size, output is a well-formed TLV sequence '
+              'in field order with shortest T/L and smallest integer width, decode(encode v) = v (MapField included: key '
+              'UintField/BytesField, value an element field of another Type, dict keys pairwise different), unknown non-critical '
+              'elements skipped and unknown critical ones rejected at every element boundary, also between a map key and its '
+              'value - for ALL schemas and values by structural induction. The interpreter '
               'is tied to tlv_model.py on every run by differential execution on generated and shipped model classes.')
-LEVEL_NOTE = ('Theorems are about the Lean interpreter; interpreter = tlv_model.py is sampled. MapField round trip is not proved '
-              '(partial). struct/memoryview semantics are CPython.')
+LEVEL_NOTE = ('Theorems are about the Lean interpreter; interpreter = tlv_model.py is sampled. Marker pseudo-fields (no value) '
+              'are outside wfTop; their offsets are covered by C01/C02. struct/memoryview semantics are CPython.')
 TECHNIQUE = 'Lean 4 proof (structural induction over schema trees and field lists) + model/implementation correspondence check'
 DESIGN_REF = 'DESIGN.md section 5.3 and section 7, C08'
 
